@@ -150,8 +150,8 @@ func cmdCheck(args []string) int {
 	var specs []*HarnessSpec
 	for i := range defs {
 		d := &defs[i]
-		if d.Tier == "thorough" && *tier != "thorough" {
-			continue
+		if d.Tier == "off" || (d.Tier == "thorough" && *tier != "thorough") {
+			continue // "off": written but not registered (too slow or not decided within its cap; DESIGN.md 10.7)
 		}
 		if *only != "" && !strings.Contains(d.ID, *only) && !strings.Contains(d.Spec.Name, *only) {
 			continue
